@@ -860,8 +860,14 @@ def api_parse(rc, out, err):
         elif line.startswith("DONE"):
             res["done"] = True
     open_ids, tail = [], []
+    open_lits = []
     for line in err.decode(errors="replace").splitlines():
-        if line.startswith("@B "):
+        if line.startswith("@B L "):
+            open_lits.append(line[5:])
+        elif line.startswith("@E L "):
+            if line[5:] in open_lits:
+                open_lits.remove(line[5:])
+        elif line.startswith("@B "):
             open_ids.append(int(line[3:]))
         elif line.startswith("@E "):
             i = int(line[3:])
@@ -872,6 +878,7 @@ def api_parse(rc, out, err):
         else:
             tail.append(line)
     res["in_flight"] = open_ids[-1] if open_ids else None
+    res["literal_in_flight"] = open_lits[-1] if open_lits else None
     res["tail"] = "\n".join(tail[-5:])[:500]
     return res
 
@@ -889,6 +896,12 @@ def api_check(exe, cfgname, linkname, salt):
     """returns (failures, infra, observed)"""
     from .c20 import family
     ref = api_run(exe, "all", salt)
+    if not ref["done"] and ref.get("literal_in_flight") and not ref["reached_main"]:
+        # a literal-operand namespace-scope object died during its (dynamic) initialisation: cannot be skipped at run time
+        name = ref["literal_in_flight"]
+        return [{"probe": None, "class": "hang" if ref["rc"] is None else "crash:%s" % sig(ref["rc"]), "facility": "api:" + family(name).split("|")[0],
+                 "kind": "api", "form": "c", "note": name, "compiler": "clang" if "clang" in cfgname else "gcc", "detail": ref["tail"],
+                 "schedule": {"api": True, "cfg": cfgname, "link": linkname, "salt": salt}}], None, 0
     if not ref["done"]:
         return [], "API sweep reference process did not finish (%s, %s): rc=%s %s" % (cfgname, linkname, ref["rc"], ref["tail"]), 0
     failures, skip = [], []
@@ -920,7 +933,7 @@ def api_check(exe, cfgname, linkname, salt):
             cls = "mismatch-vs-clean-main"
         if cls:
             failures.append({"probe": pid, "class": cls, "facility": "api:" + family(p["name"]).split("|")[0], "kind": "api", "form": p["form"],
-                             "note": p["name"] + (" [from inline variable]" if p["form"] == "i" else ""), "compiler": "clang" if "clang" in cfgname else "gcc",
+                             "note": p["name"] + (" [from inline variable]" if p["form"] == "i" else (" [literal operands, object at namespace scope]" if p["form"] == "c" else "")), "compiler": "clang" if "clang" in cfgname else "gcc",
                              "detail": "", "schedule": {"api": True, "cfg": cfgname, "link": linkname, "salt": salt}})
     return failures, None, observed
 
@@ -943,6 +956,7 @@ def api_sweep(seed, thorough, only=None, cfg_filter=None):
         flags = opt + (["-Wno-c++11-narrowing"] if "clang" in cxx else [])
         hs.append(c20.Harness(os.path.join(root, (cxx + "".join(opt)).replace("+", "p")), flags, only=only, cxx=cxx, ntus=per,
                               label="api", subset=subset, runtime="c19_api_rt.cpp", no_models=("clang" in cxx), inline_twins=True))
+        hs[-1].literal_seed = common.run_seed(seed, 31337)
     errs = pmap(lambda h: h.build(), hs, len(hs) or 1)
     for e in errs:
         if e:
